@@ -1,6 +1,7 @@
 /- Driver handlers for markers: raw parse / leaf construction / evaluation (ops mraw). -/
 import PoetryVerif.Protocol
-import PoetryVerif.Model.Marker
+import PoetryVerif.Model.MarkerOps
+import PoetryVerif.Drv.VC
 import PoetryVerif.Spec.Pep508
 
 namespace Poetry.Drv
@@ -48,5 +49,71 @@ def handleMarker (op : String) (args : List String) : Option String :=
         "ok\t" ++ encode syn.dump ++ "\t" ++ encode m.dump ++ "\t" ++ encode (mStr m) ++ "\t" ++
           encode bits ++ "\t" ++ encode spec
   | _, _ => none
+
+def mReport (m : M) (envs : List String) : String :=
+  encode m.dump ++ "\t" ++ encode (mStr m) ++ "\t" ++ boolStr m.isAny ++ boolStr m.isEmpty ++ "\t" ++
+    encode (String.join (envs.map fun e => truthChar (m.validate (parseEnv e))))
+
+def mResult (r : PyM M) (envs : List String) : String :=
+  match r with
+  | .ok m => "ok\t" ++ mReport m envs
+  | .error e => "err\t" ++ e.name
+
+/-- ops on parsed markers: mparse, mop, mun, monly, mexcl, mreduce, gpc, cnm -/
+def handleMarkerOps (op : String) (args : List String) : Option String :=
+  match op, args with
+  | "mparse", text :: envs => some (mResult (parseMarker text) envs)
+  | "mop", o :: a :: b :: envs =>
+    some <| match parseMarker a, parseMarker b with
+    | .ok x, .ok y =>
+      (match o with
+       | "intersect" => mResult (x.intersectWith y) envs
+       | "union" => mResult (x.unionWith y) envs
+       | _ => "bad-op")
+    | .error e, _ => "perr\t" ++ e.name
+    | _, .error e => "perr\t" ++ e.name
+  | "mun", o :: a :: envs =>
+    some <| match parseMarker a with
+    | .ok x =>
+      (match o with
+       | "invert" => mResult x.invert envs
+       | "cnf" => mResult (cnf defaultFuel [] x) envs
+       | "dnf" => mResult (dnf defaultFuel [] x) envs
+       | "noextras" => mResult x.withoutExtras envs
+       | _ => "bad-op")
+    | .error e => "perr\t" ++ e.name
+  | "monly", a :: names :: envs =>
+    some <| match parseMarker a with
+    | .ok x => mResult (x.only (if names.isEmpty then [] else names.splitOn ",")) envs
+    | .error e => "perr\t" ++ e.name
+  | "mexcl", a :: name :: envs =>
+    some <| match parseMarker a with
+    | .ok x => mResult (x.exclude name) envs
+    | .error e => "perr\t" ++ e.name
+  | "mreduce", a :: c :: envs =>
+    some <| match parseMarker a, VParser.parseConstraint c with
+    | .ok x, .ok pc => mResult (x.reduce pc) envs
+    | .error e, _ => "perr\t" ++ e.name
+    | _, .error e => "perr\t" ++ e.name
+  | "gpc", a :: probes =>
+    some <| match parseMarker a with
+    | .ok x =>
+      (match gpc x with
+       | .ok c => "ok\t" ++ vcReport c probes
+       | .error e => "err\t" ++ e.name)
+    | .error e => "perr\t" ++ e.name
+  | "cnm", [name, c] =>
+    some <| match VParser.parseConstraint c with
+    | .ok pc =>
+      (match createNestedMarker name pc with
+       | .ok t => "ok\t" ++ encode t
+       | .error e => "err\t" ++ e.name)
+    | .error e => "perr\t" ++ e.name
+  | _, _ => none
+
+def handleMarkerAll (op : String) (args : List String) : Option String :=
+  match handleMarker op args with
+  | some r => some r
+  | none => handleMarkerOps op args
 
 end Poetry.Drv
